@@ -65,6 +65,8 @@ func New6(session *packet.Session) (*Handler6, error) {
 // Close releases underlying resources.
 // The handler is not longer usable after calling Close().
 func (h *Handler6) Close() error {
+	h.Lock() // closed and closeChan are shared with the spoof loops and the RA branch of ProcessPacket
+	defer h.Unlock()
 	if h.closed {
 		return nil
 	}
@@ -177,12 +179,14 @@ func (h *Handler6) ProcessPacket(pkt packet.Frame) (err error) {
 
 		// wakeup all pending spoof goroutines
 		// we want to immediately spoof hosts after an RA
+		h.Lock()
 		if h.huntList.Len() > 0 && !h.closed { // after Close the channel is already closed
 			ch := h.closeChan
 			h.closeChan = make(chan bool)
 			close(ch) // this will cause all spoof loop select to wakeup
 			verifEmit("ndp.wake")
 		}
+		h.Unlock()
 
 		repeat++
 		if repeat%4 != 0 { // skip if too often - home router send RA every 4 sec
